@@ -190,6 +190,35 @@ def long_body_case(rng):
             "long_words": [w1, w2, [2] + w1 + [1], w1[:-1], [2] + w1]}
 
 
+def repeat_case(rng):
+    """bodies that use one symbol twice or three times next to another symbol (T -> A A b, T -> b A A, T -> A b A),
+    the repeated symbol nullable and/or generating, the other one not always: per-production counters that are
+    decremented per occurrence and restored per occurrence"""
+    nv = rng.randint(3, 4)
+    prods = []
+    for h in range(1, nv):
+        r = rng.random()
+        if r < 0.5:
+            prods.append([h, []])
+        if r > 0.3:
+            prods.append([h, [["T", rng.randrange(2)]]])
+        if rng.random() < 0.15:
+            prods.append([h, [["V", h], ["T", rng.randrange(2)]]])        # neither nullable nor generating by itself
+    for h in [0] + [rng.randrange(nv) for _ in range(rng.randint(1, 2))]:
+        x = ["V", rng.randrange(1, nv)]
+        y = ["T", rng.randrange(2)] if rng.random() < 0.6 else ["V", rng.randrange(1, nv)]
+        body = rng.choice([[x, x, y], [y, x, x], [x, y, x], [x, x, x, y], [x, x]])
+        if [h, [list(z) for z in body]] not in prods:
+            prods.append([h, [list(z) for z in body]])
+    if rng.random() < 0.5:
+        prods.append([0, [["V", rng.randrange(1, nv)]]])
+    rng.shuffle(prods)
+    c = {"nv": nv, "nt": 2, "start": 0, "prods": prods, "vc": rng.choice(["str", "lower"])}
+    if rng.random() < 0.5:
+        c["shuffle"] = rng.randrange(1 << 30)
+    return c
+
+
 def two_route_case(rng):
     """a variable that is generating through one production and nullable only through another one made of
     variables (the shape on which a drifting impact counter shows), under a start symbol that depends on it"""
